@@ -12,7 +12,7 @@ LEVEL = 'exploration'
 RULE = ('cases = (a) DM1 end to end: a sender CA with Dm1.start_send(callback, cycle) whose callback returns, per cycle, fresh lamp states and 1..400 '
         'trouble codes (first code tagged with the cycle number), Dm1 subscribers on 1-2 other stacks (plus a subscriber that was unsubscribed again), in 40 % of the cases a second independent DM1 sender on a third stack, either data link layer (single frame, BAM, '
         'FD Multi-PG <= 14 codes, FD BAM), SPN/FMI/OC on boundaries (0, 1, 0xFFFF, 0x10000, 0x7FFFF, 31, 127) and random, lamp combinations from all '
-        '5^4, cycle times above the transfer time, stop_send after 2-5 cycles then 3 more cycle times of observation; oracle: subscriber arguments '
+        '5^4, cycle times above the transfer time, stop_send after 2-5 cycles then 3 more cycle times of observation, in 40 % of the cases followed by a second start_send with another cycle time and a second stop_send; oracle: subscriber arguments '
         'equal what the callback returned for that cycle, in order; the DM1 payload reassembled from the bus by the independent sniffer equals the '
         'reference J1939-73 encoding; no DM1 frame after stop_send returned; (b) DTC codec: DTC(spn,fmi,oc).dtc and DTC(dtc=..) against the '
         'reference bit positions over boundary + random values; (c) DM22 requests (active / previously active) over boundary + random SPN/FMI: '
@@ -151,6 +151,28 @@ def run_dm1(case):
         stopped['cycles'] = len(sent)
     sim.at(t_stop, stop)
     t_end = t_stop + 3 * cycle + dur + 0.05
+    # a second start / stop on the same Dm1 object with another cycle time (history of start_send / stop_send)
+    restart = {}
+    if rng.random() < 0.4:
+        cycle2 = round(dur + rng.choice([0.04, 0.15, 0.6]), 3)
+        n2c = rng.randint(1, 3)
+        t_start2 = t_end
+        t_stop2 = t_start2 + cycle2 * n2c + cycle2 * 0.5
+
+        def start2():
+            restart['n_before'] = len(sent)
+            restart['t_start'] = sim.now
+            dm1.start_send(cb, cycle2)
+
+        def stop2():
+            rec = W.call('stop_send', dm1.stop_send, cb)
+            restart['t_stop'] = sim.now
+            restart['n_at_stop'] = len(sent)
+            restart['exc'] = rec['exc']
+        sim.at(t_start2, start2)
+        sim.at(t_stop2, stop2)
+        t_end = t_stop2 + 3 * cycle2 + dur + 0.05
+        restart.update(cycle=cycle2, n=n2c)
     W.run(t_end)
     obs = dict(dm1_cycles_compared=0, dtcs_compared=0, stop_observed=0, dm22_frames=0, dtc_codec_values=0, lamp_combinations_max=len(set(tuple(x) for x in case['lamps'])))
     M.m_live(viol, W, layer)
@@ -158,7 +180,18 @@ def run_dm1(case):
         viol.add('stop_raised', 'stop_send raised %s' % stopped['exc'], **tag)
     # 1. nothing after stop_send returned (cycles begun before are allowed to finish their transfer)
     n_at_stop = stopped.get('cycles', 0)
-    if len(sent) > n_at_stop:
+    if restart:
+        # between the first stop and the second start nothing may be sent; the second phase sends again and stops again
+        if restart.get('n_before', n_at_stop) != n_at_stop:
+            viol.add('dm1_after_stop', 'the DM1 callback ran %d time(s) between stop_send (%.3f) and the next start_send' % (restart['n_before'] - n_at_stop, stopped.get('t', -1)), **tag)
+        got2 = restart.get('n_at_stop', 0) - restart.get('n_before', 0)
+        if got2 not in (restart['n'], restart['n'] + 1):
+            viol.add('dm1_cycle_count', 'after the second start_send (cycle %.3f) %d DM1 cycles ran in %d cycle times' % (restart['cycle'], got2, restart['n']), phase=2, **tag)
+        if len(sent) > restart.get('n_at_stop', len(sent)):
+            viol.add('dm1_after_stop', 'the DM1 callback ran %d more time(s) after the second stop_send' % (len(sent) - restart['n_at_stop']), phase=2, **tag)
+        else:
+            obs['stop_observed'] += 1
+    elif len(sent) > n_at_stop:
         viol.add('dm1_after_stop', 'the DM1 callback ran %d more time(s) after stop_send returned at %.3f (cycle %.3f s)' % (len(sent) - n_at_stop, stopped.get('t', -1), cycle), **tag)
     else:
         obs['stop_observed'] += 1
